@@ -208,6 +208,13 @@ def _orders(ctx):
         for st in strays:
             for body in ([good, st], [st, good], [good, st, st], [pool[0], good, st, pool[2]], [good, st, pool[1], st]):
                 check_e2e(ctx, body, "stray line among classified lines")
+    # characters that text-level "clean-ups" like to strip: BOM / zero-width / no-break / ideographic blanks
+    for sp in ("\ufeff", "\u200b", "\u00a0", "\u3000", "\U0001f3b8"):
+        for tmpl in ("lyric a%sb", "lyric %s", "lyric%s x", "lyric %sx%s y", "section a%sb", "sec%stion x", "section%s", "a%sb", "%s", "x%s y"):
+            t = tmpl.replace("%s", sp)
+            line = '7 = E "%s"' % t
+            check_line(ctx, _order(), line, "special character U+%04X" % ord(sp))
+            check_e2e(ctx, [pool[0], line, pool[2]], "special character U+%04X" % ord(sp))
     sync = ("0 = TS 4", "0 = B 120000", "3 = B 60000", "5 = B 200000")
     for n in (2, 3):
         for idx in itertools.combinations(range(6), n):
